@@ -172,14 +172,57 @@ impl Ctx {
         s
     }
 
+    /// second opinion: all final obligations of this path, re-discharged by another solver binary
+    pub fn cross_check_path(&mut self) {
+        if self.cross_queries.is_empty() {
+            return;
+        }
+        let bin = std::env::var("SYMFROST_CROSS").unwrap_or_else(|_| "z3-new".to_string());
+        let mut script = String::from("(set-logic QF_NIA)\n");
+        script.push_str(&self.cross_defs);
+        for (q, _) in self.cross_queries.iter() {
+            script.push_str("(push)\n");
+            script.push_str(q);
+            script.push_str("(check-sat)\n(pop)\n");
+        }
+        let path = format!("{}/.build/cross-{}-{:?}.smt2", std::env::var("VERIF_ROOT").unwrap_or_else(|_| "/verif".into()), std::process::id(), std::thread::current().id());
+        if std::fs::write(&path, &script).is_err() {
+            return;
+        }
+        let args: Vec<String> = if bin.contains("cvc5") { vec!["--lang".into(), "smt2".into(), "--incremental".into(), "--tlimit-per=3000".into(), path.clone()] } else { vec!["-t:3000".into(), path.clone()] };
+        let out = std::process::Command::new(&bin).args(&args).output();
+        std::fs::remove_file(&path).ok();
+        let Ok(out) = out else { return };
+        let text = String::from_utf8_lossy(&out.stdout);
+        let answers: Vec<&str> = text.lines().map(|l| l.trim()).filter(|l| ["sat", "unsat", "unknown", "timeout"].contains(l)).collect();
+        for (i, (_, proved)) in self.cross_queries.iter().enumerate() {
+            self.stats.cross_checked += 1;
+            match answers.get(i) {
+                Some(&"unsat") if *proved => self.stats.cross_agree += 1,
+                Some(&"sat") if *proved => self.stats.cross_disagree += 1,
+                _ => self.stats.cross_unknown += 1,
+            }
+        }
+        if self.stats.cross_disagree > 0 {
+            self.fail("solver cross-check", format!("{bin} finds a model for an obligation z3 4.8.12 proved"), true);
+        }
+        self.cross_queries.clear();
+    }
+
     fn run_query(&mut self, defs: String, body: String, timeout_ms: u32) -> Ans {
         let script = format!("{defs}(push)\n(set-option :timeout {timeout_ms})\n{body}(check-sat)\n(pop)\n");
         if self.sample_smt.len() < 3 && body.len() < 4000 && defs.len() > 40 && defs.len() < 6000 {
             // a sample query as sent (with the term definitions it introduced)
             self.sample_smt.push(format!("{defs}(push)\n{body}(check-sat)\n(pop)"));
         }
+        if self.cfg.cross_check {
+            self.cross_defs.push_str(&defs);
+        }
         let t0 = Instant::now();
         let a = self.z3().query(&script);
+        if self.cfg.cross_check && self.in_obligation && a == Ans::Unsat && self.cross_queries.len() < 400 {
+            self.cross_queries.push((body.clone(), true));
+        }
         self.stats.z3_ms += t0.elapsed().as_secs_f64() * 1000.0;
         self.stats.z3_queries += 1;
         match a {
